@@ -43,6 +43,8 @@ func suiteParse(rn *runner, r *rng, tier string) {
 	// carry: a ParsedJson kept (by value, so that it survives failed calls) from an earlier successful parse of this
 	// suite and handed to later cases as the reuse argument: acceptance and the exposed document must not depend on it
 	var carry *simdjson.ParsedJson
+	suiteScratch = &scratchSet{} // caller-owned destinations of the ordered walk survive from case to case
+	defer func() { suiteScratch = nil }()
 	for i := 0; i < n; i++ {
 		cr := r.fork()
 		cfg := defaultCfg(cr)
@@ -70,6 +72,9 @@ func suiteParse(rn *runner, r *rng, tier string) {
 			kind += "L"
 		}
 		tc := parseCase(cr, text, nd, cr.chance(1, 2), kind)
+		if cr.chance(1, 3) {
+			tc.ops = append([]string{"mode scratch"}, tc.ops...)
+		}
 		useCarry := carry != nil && cr.chance(1, 3)
 		if useCarry {
 			reuse := carry
@@ -85,7 +90,7 @@ func suiteParse(rn *runner, r *rng, tier string) {
 			rn.add(tc)
 		}
 		oc := "err"
-		if len(tc.impl) > 0 && strings.HasPrefix(tc.impl[0], "ok") {
+		if pi := parseIdx(tc); len(tc.impl) > pi && strings.HasPrefix(tc.impl[pi], "ok") {
 			oc = "ok"
 			if pj := lastStore.pjs["p"]; pj != nil && !nd && (carry == nil || cr.chance(1, 4)) { // ParseND results carry no parser state
 				h := *pj
@@ -97,4 +102,12 @@ func suiteParse(rn *runner, r *rng, tier string) {
 		rn.seen[tc.class] = true
 	}
 	rn.rep.Rule = "generated documents, mutants, raw bytes and NDJSON texts; distinct = (generator, outcome, nd, size class)"
+}
+
+// parseIdx: index of the parse op of a parse case (1 when a mode line precedes it)
+func parseIdx(tc *testCase) int {
+	if len(tc.ops) > 0 && strings.HasPrefix(tc.ops[0], "mode ") {
+		return 1
+	}
+	return 0
 }
